@@ -31,6 +31,10 @@ COMMON = {
     "length4":    ("stream", False, False, ["plus1", "minus1", "zero", "neg", "huge", "missing", "ref_nonint", "ref_cycle", "ref_dangling", "real"]),
     "endstream4": ("stream", False, False, ["drop", "misspelt"]),
     "stream_kw4": ("stream", False, False, ["cr_only", "no_eol"]),
+    # the image's data behind a filter, damaged the way the filter notices only while decoding
+    "filter7":    ("stream", False, False, ["png_ragged", "png_tagonly", "png_badtag", "png_cols0", "png_colshuge", "png_bpc0", "png_colorshuge",
+                                            "tiff_ragged", "lzw_png_ragged", "flate_trunc", "flate_garbage", "ahex_odd", "a85_bad", "rl_trunc",
+                                            "lzw_junk", "parms_array_short", "unknown"]),
     "truncate":   ("object", False, False, None),      # values t<k>: cut the file after the k-th token; filled in per layout
 }
 FAULTS["classic"] = dict(COMMON, **{
@@ -129,6 +133,60 @@ def _nest(kind):
     return "null"
 
 
+def _lzw(data):
+    """LZW (early change 1) of short data: clear, the bytes as literals, EOD - 9-bit codes"""
+    codes = [256] + list(data) + [257]
+    bits = "".join(format(c, "09b") for c in codes)
+    bits += "0" * (-len(bits) % 8)
+    return bytes(int(bits[i:i + 8], 2) for i in range(0, len(bits), 8))
+
+
+def _filter7(v):
+    """(filter entries of the image dictionary, stored data) for the 2x2 grey image"""
+    raw = b"\x00\x40\x80\xff"
+    png = b"\x00\x00\x40\x02\x80\xbf"           # rows: None, Up
+    def parms(pred=12, cols=b"2", extra=b""):
+        return b" /DecodeParms << /Predictor %d /Columns " % pred + cols + extra + b" >>"
+    fl = b" /Filter /FlateDecode"
+    if v is None:
+        return b"", raw
+    if v == "png_ragged":      # one byte short of a whole number of rows, the tag of the cut row is valid
+        return fl + parms(), zlib.compress(png[:-1])
+    if v == "png_tagonly":     # a tag byte and nothing after it
+        return fl + parms(), zlib.compress(png + b"\x01")
+    if v == "png_badtag":
+        return fl + parms(), zlib.compress(b"\x09" + png[1:])
+    if v == "png_cols0":
+        return fl + parms(cols=b"0"), zlib.compress(png)
+    if v == "png_colshuge":
+        return fl + parms(cols=NUM["i32max"].encode()), zlib.compress(png)
+    if v == "png_bpc0":
+        return fl + parms(extra=b" /BitsPerComponent 0"), zlib.compress(png)
+    if v == "png_colorshuge":
+        return fl + parms(extra=b" /Colors 2147483647"), zlib.compress(png)
+    if v == "tiff_ragged":
+        return fl + parms(pred=2, extra=b" /BitsPerComponent 16"), zlib.compress(raw[:3])
+    if v == "lzw_png_ragged":
+        return b" /Filter /LZWDecode" + parms(), _lzw(png[:-1])
+    if v == "flate_trunc":
+        return fl, zlib.compress(raw * 20)[:-6]
+    if v == "flate_garbage":
+        return fl, b"\x78\x9c\xff\xfe\xfd\x00\x01"
+    if v == "ahex_odd":
+        return b" /Filter /ASCIIHexDecode", b"00 40 8G"
+    if v == "a85_bad":
+        return b" /Filter /ASCII85Decode", b"zz!v{~"
+    if v == "rl_trunc":
+        return b" /Filter /RunLengthDecode", b"\x03\x00"
+    if v == "lzw_junk":
+        return b" /Filter /LZWDecode", b"\xff\xff\x00\x80\x7f\xff\xff"
+    if v == "parms_array_short":
+        return b" /Filter [/ASCIIHexDecode /FlateDecode] /DecodeParms [null]", zlib.compress(raw).hex().encode() + b">"
+    if v == "unknown":
+        return b" /Filter /NoSuchDecode", raw
+    raise ValueError(v)
+
+
 class Obj:
     def __init__(self, oid, body=None, sdict=None, data=None):
         self.oid, self.body, self.sdict, self.data = oid, body, sdict, data
@@ -170,7 +228,8 @@ def _base_objects(layout, d):
     objs[4] = Obj(4, sdict=b"<< >>", data=sd(4, CONTENT))
     objs[5] = Obj(5, b"<< /Type /Font /Subtype /Type1 /BaseFont /Helvetica /FirstChar 65 /LastChar 67 /Widths [500 600 700] /ToUnicode 6 0 R >>")
     objs[6] = Obj(6, sdict=b"<< >>", data=sd(6, CMAP))
-    objs[7] = Obj(7, sdict=b"<< /Type /XObject /Subtype /Image /Width 2 /Height 2 /BitsPerComponent 8 /ColorSpace /DeviceGray >>", data=sd(7, b"\x00\x40\x80\xff"))
+    f7, d7 = _filter7(d.get("filter7"))
+    objs[7] = Obj(7, sdict=b"<< /Type /XObject /Subtype /Image /Width 2 /Height 2 /BitsPerComponent 8 /ColorSpace /DeviceGray" + f7 + b" >>", data=sd(7, d7))
     extra_trailer = b""
     if enc:
         o_hex, u_hex = o_val.hex().upper(), u_val.hex().upper()
